@@ -22,7 +22,7 @@ def mag(m):
 
 
 def base_spectrum(cls, n):
-    if cls == "interior":
+    if cls in ("interior", "faint"):
         w = np.arange(n, 0, -1, dtype=float) + 1.0
     elif cls == "pure":
         w = np.zeros(n)
@@ -83,6 +83,18 @@ def build(case, rs, frame_kind, required=False):
                 w = np.roll(base_spectrum(o["class"], m), pos)
             cols.append(w)
         E = np.array(cols).T.copy()          # E[x, pos]
+        if o["class"] == "faint":
+            # an extra outcome that (almost) never occurs: eigenvalues -delta and +delta, compensated in a dominant element
+            x1 = int(np.argmax(E[:, 0]))
+            extra = np.zeros(d)
+            extra[0], extra[1] = -delta, delta
+            E[x1, 0] += delta
+            E[x1, 1] -= delta
+            E = np.vstack([E, extra])
+            m += 1
+            E[x1, :] += tau
+            vecs = [spectral.vec_of(shape, (U * E[x]) @ U.conj().T) for x in range(m)]
+            return lambda: Povm(c, [v.copy() for v in vecs], is_physicality_required=required)
         if delta:
             x0 = int(np.argmin(E[:, 0]))
             x1 = int(np.argmax(E[:, 0]))
@@ -106,6 +118,15 @@ def build(case, rs, frame_kind, required=False):
     # mprocess with two outcomes carrying 0.6 / 0.4 of the weight; the negative weight sits in outcome 1
     p0 = 0.6 * base_spectrum(o["class"], n)
     p1 = 0.4 * np.roll(base_spectrum(o["class"], n), 1)
+    if o["class"] == "faint":
+        # a third outcome that (almost) never occurs and carries the violation: weights +delta/d and -delta/d
+        p2 = np.zeros(n)
+        p2[0], p2[1] = delta / d, -delta / d
+        hs0 = spectral.hs_of_map(shape, list(zip(p0, ops)))
+        hs1 = spectral.hs_of_map(shape, list(zip(p1, ops)))
+        hs2 = spectral.hs_of_map(shape, list(zip(p2, ops)))
+        hs0[0, 1] += tau
+        return lambda: MProcess(c, [hs0.copy(), hs1.copy(), hs2.copy()], is_physicality_required=required)
     if delta:
         j = int(np.argmin(p1))
         i = int(np.argmax(p1))
